@@ -6,7 +6,7 @@ SPEC = dict(
                 "against a scripted raw-socket server (own poll loop, own strict request reader, no iora code) that fails each "
                 "exchange where the script says - connect refused, RST after accept, k request octets consumed then "
                 "FIN/RST/close-with-unread-data/silence (k over every request offset), response written up to octet j then "
-                "FIN/RST/silence (j over every response offset), 26 deterministic framing violations (13 of them malformed status lines / version tokens), complete answers with "
+                "FIN/RST/silence (j over every response offset), 38 deterministic framing violations (13 malformed status lines / version tokens, 12 chunk sizes beyond the response cap), complete answers with "
                 "keep-alive / close tokens / HTTP/1.0 / close-delimited bodies / surplus octets. The oracle counts, per unique "
                 "request token, on how many connections the request showed up, and watches which connection each later request "
                 "uses. Exploration is the right level: the fault space (method x budget x fault x offset x sequence x callers) is "
@@ -23,7 +23,7 @@ SPEC = dict(
           "optional connect-refused window of 50-350 ms (port bound but not listening), reuseConnections on/off, receive time-out "
           "200-300 ms when the script contains a silent peer, 2.5 s otherwise. script = 0-8 actions consumed in arrival order of "
           "the exchanges (then: complete 200 keep-alive): accept-then-RST 6 %, read k octets then FIN/RST/stall/close-unread 20 %, "
-          "early answer after k octets 5 %, response cut at octet j then FIN/RST/stall 19-24 %, framing violation 12 % (28 kinds, 2 of them lenient-accepted status lines without verdict), complete "
+          "early answer after k octets 5 %, response cut at octet j then FIN/RST/stall 19-24 %, framing violation 12 % (40 kinds, 2 of them lenient-accepted status lines without verdict; 1 case in 6 with a 4 KiB response cap), complete "
           "answer with close token (4 spellings) 10 %, surplus octets 5 %, HTTP/1.0 4 %, keep-alive / foreign Connection token 4 %, "
           "plain 15 %; framing Content-Length / chunked / close-delimited / 204 / 304, optional '100 Continue', response delay "
           "0-40 ms. Non-trivial = at run time at least one exchange was failed by the server after it had read >= 1 octet of the "
